@@ -201,6 +201,8 @@ func dhtIterate(nodes []NodeInfo, key []byte, n int, fn func(node NodeInfo) (new
 	if n < 1 {
 		panic(n)
 	}
+	// every distinct node is handed to fn at most once, whatever peer lists come back
+	visited := make(map[p2p.PeerID]struct{})
 	for len(nodes) > 0 {
 		// TODO: use a heap
 		slices.SortFunc(nodes, func(a, b NodeInfo) bool {
@@ -211,6 +213,10 @@ func dhtIterate(nodes []NodeInfo, key []byte, n int, fn func(node NodeInfo) (new
 		}
 		var node NodeInfo
 		node, nodes = pop(nodes)
+		if _, seen := visited[node.ID]; seen {
+			continue
+		}
+		visited[node.ID] = struct{}{}
 
 		newNodes, cont := fn(node)
 		if !cont {
@@ -219,6 +225,9 @@ func dhtIterate(nodes []NodeInfo, key []byte, n int, fn func(node NodeInfo) (new
 		for _, newNode := range newNodes {
 			if !DistanceLt(key, newNode.ID[:], node.ID[:]) {
 				continue // ignore peers that aren't actually closer
+			}
+			if _, seen := visited[newNode.ID]; seen {
+				continue
 			}
 			if !contains(nodes, newNode, func(a, b NodeInfo) bool {
 				return a.ID == b.ID
